@@ -215,6 +215,7 @@ func Explore(o Options, body func(*Run)) *Result {
 	}
 	var execs, points, maxChoices int
 	var stop bool
+	knownSeen := map[string]bool{}
 	var explore func(prefix []int, bound int)
 	explore = func(prefix []int, bound int) {
 		if stop {
@@ -254,10 +255,21 @@ func Explore(o Options, body func(*Run)) *Result {
 			res.Samples = append(res.Samples, map[string]any{"scenario": o.Name, "schedule": fmt.Sprint(choices), "outcome": oc, "log": r.log})
 		}
 		if len(r.fails) > 0 {
-			res.Violations = append(res.Violations, Violation{Scenario: o.Name, Msgs: r.fails, Choices: choices, Log: r.log,
-				Finger: fingerprint(o.Name, firstLine(r.fails[0])), Class: firstLine(r.fails[0])})
-			stop = true
-			return
+			cls := firstLine(r.fails[0])
+			if kc := knownClass(o.Name, cls); kc != "" {
+				// a listed known finding: report it once and keep exploring, so that a
+				// different violation in the same scenario is still found
+				if !knownSeen[kc] {
+					knownSeen[kc] = true
+					res.Violations = append(res.Violations, Violation{Scenario: o.Name, Msgs: r.fails, Choices: choices, Log: r.log,
+						Finger: fingerprint(o.Name, cls), Class: cls})
+				}
+			} else {
+				res.Violations = append(res.Violations, Violation{Scenario: o.Name, Msgs: r.fails, Choices: choices, Log: r.log,
+					Finger: fingerprint(o.Name, cls), Class: cls})
+				stop = true
+				return
+			}
 		}
 		cost := 0
 		for i := 0; i < len(x.trace); i++ {
@@ -294,7 +306,7 @@ func Explore(o Options, body func(*Run)) *Result {
 		res.BoundCompleted = b
 		res.States = execs // schedules explored at the largest completed bound
 	}
-	if stop && len(res.Violations) == 0 {
+	if stop && res.CapHit != "" {
 		res.Exhaustive = false
 	}
 	res.Transitions = res.Points
@@ -303,12 +315,34 @@ func Explore(o Options, body func(*Run)) *Result {
 	if res.States == 0 {
 		res.States = res.Executions
 	}
+	if os.Getenv("VRT_PRUNE_CHECK") != "" && o.Prune && len(res.Violations) == 0 && res.Exhaustive {
+		// cross-validation of HB caching: the unpruned search must see the same outcomes
+		o2 := o
+		o2.Prune = false
+		o2.Name = o.Name + "#unpruned"
+		saved := records
+		full := Explore(o2, body)
+		records = saved
+		if full.Exhaustive && (fmt.Sprint(sortedKeys(full.Outcomes)) != fmt.Sprint(sortedKeys(res.Outcomes)) || len(full.Violations) != 0) {
+			InfraError("HB pruning changed the result of %q: pruned outcomes %v, unpruned outcomes %v, unpruned violations %d", o.Name, sortedKeys(res.Outcomes), sortedKeys(full.Outcomes), len(full.Violations))
+		}
+		AddNote("prune-check %s: pruned %d executions vs unpruned %d, same %d outcomes (unpruned exhaustive=%v)", o.Name, res.Executions, full.Executions, len(res.Outcomes), full.Exhaustive)
+	}
 	if o.MustCollide && res.Exhaustive && len(res.Violations) == 0 && o.Bound > 0 && res.DistinctOut < 2 {
 		InfraError("scenario %q is vacuous: %d schedules, %d distinct outcome(s)", o.Name, res.Executions, res.DistinctOut)
 	}
 	res.WallS = time.Since(start).Seconds()
 	Record(res)
 	return res
+}
+
+func sortedKeys(m map[string]int) []string {
+	ks := make([]string, 0, len(m))
+	for k := range m {
+		ks = append(ks, k)
+	}
+	sort.Strings(ks)
+	return ks
 }
 
 func firstLine(s string) string {
@@ -407,7 +441,8 @@ func BFS(o Options, depth int, ops []string, apply func(r *Run, hist []string) S
 	seen := map[string][]string{st0.Canon: {}}
 	frontier := [][]string{{}}
 	stop := false
-	for d := 1; d <= depth && !stop && len(res.Violations) == 0; d++ {
+	knownSeenB := map[string]bool{}
+	for d := 1; d <= depth && !stop; d++ {
 		var next [][]string
 		for _, h := range frontier {
 			for _, op := range ops {
@@ -433,8 +468,17 @@ func BFS(o Options, depth int, ops []string, apply func(r *Run, hist []string) S
 					res.Samples = append(res.Samples, map[string]any{"scenario": o.Name, "history": nh, "state": st.Canon, "log": r.log})
 				}
 				if len(r.fails) > 0 {
-					res.Violations = append(res.Violations, Violation{Scenario: o.Name, Msgs: r.fails, History: nh, Log: r.log,
-						Finger: fingerprint(o.Name, strings.Join(nh, ";"), firstLine(r.fails[0])), Class: firstLine(r.fails[0])})
+					cls := firstLine(r.fails[0])
+					v := Violation{Scenario: o.Name, Msgs: r.fails, History: nh, Log: r.log,
+						Finger: fingerprint(o.Name, strings.Join(nh, ";"), cls), Class: cls}
+					if kc := knownClass(o.Name, cls); kc != "" {
+						if !knownSeenB[kc] {
+							knownSeenB[kc] = true
+							res.Violations = append(res.Violations, v)
+						}
+						continue // a state reached through a known defect is not extended
+					}
+					res.Violations = append(res.Violations, v)
 					stop = true
 					break
 				}
@@ -460,7 +504,7 @@ func BFS(o Options, depth int, ops []string, apply func(r *Run, hist []string) S
 			break
 		}
 	}
-	if stop && len(res.Violations) == 0 {
+	if stop && res.CapHit != "" {
 		res.Exhaustive = false
 	}
 	res.States = len(seen)
@@ -523,6 +567,57 @@ func (c *Cases) Done() *Result {
 	c.res.WallS = time.Since(c.start).Seconds()
 	Record(c.res)
 	return c.res
+}
+
+// ---------------------------------------------------------------------------
+// known findings (read-only; handed over by the driver through VRT_KNOWN_FILE)
+
+type knownEntry struct {
+	Property string `json:"property"`
+	Scenario string `json:"scenario"`
+	Class    string `json:"class"`
+}
+
+var (
+	knownOnce sync.Once
+	knownList []knownEntry
+)
+
+// knownClass returns a non-empty key if (scenario, class) matches a listed finding.
+func knownClass(scenario, class string) string {
+	knownOnce.Do(func() {
+		p := os.Getenv("VRT_KNOWN_FILE")
+		if p == "" {
+			return
+		}
+		b, err := os.ReadFile(p)
+		if err != nil {
+			return
+		}
+		var f struct {
+			Findings []knownEntry `json:"findings"`
+		}
+		if json.Unmarshal(b, &f) == nil {
+			knownList = f.Findings
+		}
+	})
+	for _, k := range knownList {
+		if k.Property != "" && k.Property != os.Getenv("VRT_PROPERTY") {
+			continue
+		}
+		if strings.HasSuffix(k.Scenario, "*") {
+			if !strings.HasPrefix(scenario, strings.TrimSuffix(k.Scenario, "*")) {
+				continue
+			}
+		} else if k.Scenario != scenario {
+			continue
+		}
+		if k.Class != "" && !strings.Contains(class, k.Class) {
+			continue
+		}
+		return k.Scenario + "|" + k.Class
+	}
+	return ""
 }
 
 // ---------------------------------------------------------------------------
@@ -632,3 +727,16 @@ func Tier() string {
 }
 
 func Thorough() bool { return Tier() == "thorough" }
+
+// FairBudget splits the time left before the process deadline evenly over the
+// remaining work items of this shard.
+func FairBudget(remaining int) time.Duration {
+	if remaining < 1 {
+		remaining = 1
+	}
+	left := time.Until(GlobalDeadline()) - 2*time.Second
+	if left < time.Second {
+		left = time.Second
+	}
+	return left / time.Duration(remaining)
+}
